@@ -144,7 +144,7 @@ package text
 // hybrid score = score * weight; more than `limit` matches are cut to the first `limit` of the
 // sorted list and the returned bitmap is rebuilt from exactly those.
 //@ func (*indexText).Search
-//@   property C05
+//@   property C05 C06
 //@   floats order
 //@   safety -overflow -makelen -nil
 //@   requires options.Limit >= 1 && unheld(index.mu)
